@@ -598,6 +598,11 @@ def expand_macros(text, macros, hits, depth=0, context=None):
                 call_args = []
                 for (pn, kind, ty_), a in zip(md.fn_params, args):
                     a1 = ' '.join(a.split())
+                    if kind == 'fields':
+                        for fdecl in ty_.split(','):
+                            fname_, fk, fty = fdecl.split('=', 2)
+                            call_args.append(('&mut ' if fk == 'mut' else '&') + a1 + '.' + fname_)
+                        continue
                     if kind == 'alias':
                         # the argument must be the aliased place of another argument, e.g. `self.buffer`
                         base, place = ty_.split('.', 1)
@@ -605,6 +610,9 @@ def expand_macros(text, macros, hits, depth=0, context=None):
                         expect = ' '.join(args[bi].split()) + '.' + place
                         if a1.replace(' ', '') != expect.replace(' ', ''):
                             raise CutError('macro %s: argument %r is not the aliased place %r' % (name, a1, expect))
+                        continue
+                    if a1 == 'self' and kind in ('mut', 'ref'):
+                        call_args.append(('&mut *' if kind == 'mut' else '&*') + 'self')
                         continue
                     if kind == 'mut':
                         if re.match(r'^[A-Za-z_][A-Za-z0-9_]*$', a1) and re.search(r'\b' + a1 + r'\s*:\s*&\s*mut\b', ctx):
@@ -645,6 +653,13 @@ def macro_as_fn(md, macros, fn_params, may_return, generics, ret_ty):
     def pname(n):
         return 'self_' if n == 'self' else n
     for (pn, frag), (fpn, kind, ty) in zip(md.params, fn_params):
+        if kind == 'fields':
+            for fdecl in ty.split(','):
+                fname_, fk, fty = fdecl.split('=', 2)
+                body = re.sub(r'\$' + pn + r'\s*\.\s*' + fname_ + r'\b', '(*%s__%s)' % (pname(pn), fname_), body)
+            if re.search(r'\$' + pn + r'\b', body):
+                raise CutError('macro %s: $%s used other than through the declared fields' % (md.name, pn))
+            continue
         if kind == 'alias':
             base, place = ty.split('.', 1)
             rep = '((*%s).%s)' % (pname(base), place)
@@ -653,7 +668,15 @@ def macro_as_fn(md, macros, fn_params, may_return, generics, ret_ty):
         body = re.sub(r'\$' + pn + r'\b', lambda _m, rep=rep: rep, body)
     if '$' in body:
         raise CutError('macro %s: unexpanded metavariable remains' % md.name)
-    fn_params = [(pname(pn), kind, ty) for pn, kind, ty in fn_params]
+    fp2 = []
+    for pn, kind, ty in fn_params:
+        if kind == 'fields':
+            for fdecl in ty.split(','):
+                fname_, fk, fty = fdecl.split('=', 2)
+                fp2.append(('%s__%s' % (pname(pn), fname_), fk, fty))
+        else:
+            fp2.append((pname(pn), kind, ty))
+    fn_params = fp2
     sig_ctx = ', '.join('%s: %s' % (pn, ('&mut ' if kind == 'mut' else '&' if kind == 'ref' else '') + ty) for pn, kind, ty in fn_params if kind != 'alias')
     body, h2 = apply_rules(body, macros={k: v for k, v in macros.items() if k != md.name}, context=sig_ctx)
     hits.update(h2)
